@@ -26,6 +26,8 @@ NamesVerdict(ev) ==
      ELSE IF ev.unk_ref = "" \/ (ev.lang # "ja" /\ ev.unk_ref # "Unknown") THEN "names:Unknown name in " \o ev.lang \o " is '" \o ev.unk_ref \o "'"
      ELSE IF ev.lang \notin {"en", "ja"} /\ (ev.title # ev.title_en \/ ev.vals # ev.vals_en \/ ev.oor # ev.oor_en)
           THEN "names:" \o who \o " does not fall back to the English names"
+     ELSE IF ev.title # ev.first_title \/ ev.vals # ev.first_vals
+          THEN "names:" \o who \o " is named differently after other language tags have been used in the process"
      ELSE IF ev.m \in DOMAIN V3ModifiedOf /\ (\E c \in V3CodeSet(V3ModifiedOf[ev.m]) : ev.vals[c] # ev.base_vals[c])
           THEN "names:" \o who \o " names a value differently from " \o V3ModifiedOf[ev.m]
      ELSE "ok"
